@@ -299,6 +299,22 @@ def run(ctx):
     ctx.ob('COOKIE-SIZE', 'alac_get_magic_cookie_size', okc, qf.loc(qf.body), 'size query returns [%d, %d]; the cookie writer needs [%d, %d]%s' % (rr[0], rr[1], need.lo, need.hi,
            '' if okc else ': the capacity reported is not what the writer needs - the cookie is dropped (size 0) or the buffer is too small'), None)
 
+    ctx.rule('CODEC-CHANNELS', 'ALAC: the vendored encoder / decoder handle at most kALACMaxChannels channels (its per-channel state arrays have that many entries). For every ALAC subtype, '
+             'sf_format_check (partial evaluation, as in CHECK-TABLE) accepts CAF with kALACMaxChannels channels and refuses kALACMaxChannels + 1: a file with more channels is written '
+             'without complaint and cannot be opened again', floor=8)
+    _init(prog)
+    fcx = prog.fn('sf_format_check', 'sndfile.c')
+    kmax = E.get('kALACMaxChannels')
+    ctx.require(kmax is not None, 'enum kALACMaxChannels not found')
+    for sub_ in ('SF_FORMAT_ALAC_16', 'SF_FORMAT_ALAC_20', 'SF_FORMAT_ALAC_24', 'SF_FORMAT_ALAC_32'):
+        fmt_ = E['SF_FORMAT_CAF'] | E[sub_]
+        for ch_, want in ((kmax, 1), (kmax + 1, 0)):
+            r_ = _G['pe'].explore(fcx, {'info->format': fmt_, 'info->channels': ch_, 'info->samplerate': 44100})
+            got = sorted(r_.returns, key=lambda x: (x is None, x))
+            ok_ = got == [want]
+            ctx.ob('CODEC-CHANNELS', 'CAF|%s ch=%d' % (sub_[10:], ch_), ok_, fcx.loc(fcx.body), 'sf_format_check returns %s (required %d)%s' % (got, want, '' if ok_ else
+                   ': more channels than the ALAC codec supports are accepted' if want == 0 else ': a supported channel count is refused'), None)
+
     from engine.run import borrow
     borrow(ctx, 'C04', ['CODEC-ID'], 'an accepted combination must re-open as the same encoding: the code a writer arm emits is mapped back to its subformat by the reader')
     borrow(ctx, 'C09', ['WH-DIV'], 'a parameter set that sf_format_check accepts must not crash the open: sample rate 0 is accepted by the check and has to be refused before a header writer divides by it')
